@@ -66,6 +66,7 @@ Record st := {
 (** what one op does to the quantities the property talks about *)
 Record out := {
   o_ok : bool;               (* the call returned no error (toggle / edit) *)
+  o_panic : bool;            (* the call panicked (in BeginBlock: the chain halts) *)
   o_minted : Z;              (* change of the unibi supply *)
   o_staking : Z;             (* change of the fee collector balance *)
   o_community : Z;           (* change of the community pool *)
@@ -76,7 +77,7 @@ Record out := {
 }.
 
 Definition quiet (ok : bool) (s : st) : out :=
-  {| o_ok := ok; o_minted := 0; o_staking := 0; o_community := 0; o_strategic := 0;
+  {| o_ok := ok; o_panic := false; o_minted := 0; o_staking := 0; o_community := 0; o_strategic := 0;
      o_module := s_module s; o_period := peek (s_period s); o_skipped := peek (s_skipped s) |}.
 
 (* ---------------------------------------------------------------- AfterEpochEnd *)
@@ -101,7 +102,15 @@ Definition rollover (e epp period skipped : Z) : bool :=
 Definition set_skipped (s : st) (v : Z) : st :=
   {| s_params := s_params s; s_period := s_period s; s_skipped := Some v; s_module := s_module s |}.
 
-Definition after_epoch_end (s : st) (day : bool) (e : Z) : st * out :=
+(** [zp]: does the path "provision positive but below one unibi" panic?  On the pinned tree it does
+    (hooks.go: the deferred telemetry closure calls IsInt64 on the nil Amount of the empty coins returned
+    by MintAndAllocateInflation, after the roll-over test ran).  The driver probes the implementation
+    once per run and passes the answer, so the model describes the tree with and without a repair. *)
+Definition with_panic (b : bool) (o : out) : out :=
+  {| o_ok := o_ok o; o_panic := b; o_minted := o_minted o; o_staking := o_staking o; o_community := o_community o;
+     o_strategic := o_strategic o; o_module := o_module o; o_period := o_period o; o_skipped := o_skipped o |}.
+
+Definition after_epoch_end (zp : bool) (s : st) (day : bool) (e : Z) : st * out :=
   if negb day then (s, quiet true s) else
   let p := s_params s in
   if negb (p_enabled p) then
@@ -119,14 +128,14 @@ Definition after_epoch_end (s : st) (day : bool) (e : Z) : st * out :=
                    s_period := if rollover e (p_epp p) period (peek (s_skipped s))
                                then Some (wrap_u64 (period + 1)) else s_period s;
                    s_skipped := s_skipped s; s_module := s_module s |} in
-      (s', quiet true s')
+      (s', with_panic zp (quiet true s'))
     else
       let '(stk, cm, sr, m, ok) := allocate p (s_module s) amt in
       let s' := {| s_params := p;
                    s_period := if ok && rollover e (p_epp p) period (peek (s_skipped s))
                                then Some (wrap_u64 (period + 1)) else s_period s;
                    s_skipped := s_skipped s; s_module := m |} in
-      (s', {| o_ok := true; o_minted := amt; o_staking := stk; o_community := cm; o_strategic := sr;
+      (s', {| o_ok := true; o_panic := false; o_minted := amt; o_staking := stk; o_community := cm; o_strategic := sr;
               o_module := m; o_period := peek (s_period s'); o_skipped := peek (s_skipped s') |}).
 
 (* ---------------------------------------------------------------- sudo operations *)
@@ -170,9 +179,9 @@ Inductive op :=
 | Edit (auth : bool) (ed : edit)           (* Sudo().EditInflationParams(ctx, msg, sender) *)
 | Fund (amt : Z).                          (* stray unibi minted into the inflation module account *)
 
-Definition step (s : st) (o : op) : st * out :=
+Definition step (zp : bool) (s : st) (o : op) : st * out :=
   match o with
-  | EpochEnd day e => after_epoch_end s day e
+  | EpochEnd day e => after_epoch_end zp s day e
   | Toggle auth b => if auth then let s' := toggle s b in (s', quiet true s') else (s, quiet false s)
   | Edit auth ed =>
       if auth && valid (merge ed (s_params s))
@@ -181,12 +190,12 @@ Definition step (s : st) (o : op) : st * out :=
   | Fund amt =>
       let s' := {| s_params := s_params s; s_period := s_period s; s_skipped := s_skipped s;
                    s_module := s_module s + amt |} in
-      (s', {| o_ok := true; o_minted := amt; o_staking := 0; o_community := 0; o_strategic := 0;
+      (s', {| o_ok := true; o_panic := false; o_minted := amt; o_staking := 0; o_community := 0; o_strategic := 0;
               o_module := s_module s'; o_period := peek (s_period s'); o_skipped := peek (s_skipped s') |})
   end.
 
-Fixpoint run (s : st) (ops : list op) : st * list out :=
+Fixpoint run (zp : bool) (s : st) (ops : list op) : st * list out :=
   match ops with
   | [] => (s, [])
-  | o :: r => let '(s1, x) := step s o in let '(s2, xs) := run s1 r in (s2, x :: xs)
+  | o :: r => let '(s1, x) := step zp s o in let '(s2, xs) := run zp s1 r in (s2, x :: xs)
   end.
